@@ -210,8 +210,10 @@ class SolverSeam:
             setattr(ca.Opti, k, v)
 
     def _handoff(self, opti, how):
-        self.reached += 1
+        # Opti.solve first bakes the NLP (a Function of x and p); if that fails (free symbols, ...) the
+        # real solver is never invoked, so an exception here is not a hand-off
         rec = capture(opti, self.probe_seed, with_fun=self.keep_fun)
+        self.reached += 1
         rec["how"] = how
         self.records.append(rec)
         fault, self.next_fault = self.next_fault, None
